@@ -251,6 +251,7 @@ struct OConn
 	bool open = true, busy = false, peer_closed = false;
 	std::deque<Action> q; std::size_t cur_off = 0;
 	std::size_t nreq = 0, sent = 0;
+	int client = -1;              // the client that was being served when this connection was accepted
 };
 
 struct Origin
@@ -346,6 +347,7 @@ struct World
 			Origin& og2 = origins[std::size_t(o)];
 			std::unique_ptr<OConn> c = std::move(og2.pending[std::size_t(p)]);
 			c->id = int(oconns.size());
+			c->client = cur_client;
 			OConn* r = c.get();
 			oconns.push_back(std::move(c));
 			VLOG("  [%" PRId64 "] origin %d port %d: accepted connection #%d from %s:%d", now_ns(), o, r->port, r->id
@@ -397,10 +399,13 @@ struct World
 		++oc->nreq;
 		PReq got = parse_block(block);
 		VLOG("  [%" PRId64 "] origin conn #%d (origin %d port %d) request: %s", now_ns(), oc->id, oc->origin, oc->port, printable(block, 300).c_str());
-		if (cur_client < 0) { viol("origin-request-without-client", "origin received: " + printable(block)); close_oconn(oc); return; }
-		ClientPlan& cp = plans[std::size_t(cur_client)];
-		Cli& cl = *cli[std::size_t(cur_client)];
-		std::string const who = fmt("client %d (%s)", cur_client, kind_name(cp).c_str());
+		// a request belongs to the client for which the proxy opened this origin connection
+		int const owner = oc->client;
+		if (owner < 0) { viol("origin-request-without-client", "origin received: " + printable(block)); close_oconn(oc); return; }
+		ClientPlan& cp = plans[std::size_t(owner)];
+		Cli& cl = *cli[std::size_t(owner)];
+		std::string who = fmt("client %d (%s)", owner, kind_name(cp).c_str());
+		if (owner != cur_client) who += fmt(" [arriving while client %d is being served]", cur_client);
 		if (cl.fwd_seen >= cp.fwd.size())
 		{
 			viol(cp.target == T_REACH ? "origin-unexpected-request" : "origin-request-for-unreachable-target"
@@ -1342,7 +1347,8 @@ void case_random(Args const& a, std::uint64_t c)
 		}
 		finish_plan(p);
 		random_cuts(w, p);
-		p.end_mode = rng.choose(2);
+		// (a client whose origin hangs up early cannot know when it has everything: it stays until the proxy closes or quiescence)
+		p.end_mode = p.closes_early ? (rng.choose(2), 0) : rng.choose(2);
 		static std::vector<std::int64_t> const nd = {-1, -1, 0, 0, 1000, 10000000, 60000000};
 		p.next_delay = rng.pick(nd);
 		static std::vector<std::size_t> const rs = {65536, 65536, 4096, 1475, 100, 1};
